@@ -5,7 +5,9 @@ CONSTANTS
   ColumnMemo = "none"
   ParserScope = "per call"
   ScanMemo = "none"
+  OperandScope = "per call"
+  SubqueryColumns = "per table object"
 INIT TInit
 NEXT TNext
-INVARIANTS TypeOK SerialInv OwnParameters OwnRow OwnStatement
+INVARIANTS TypeOK SerialInv OwnParameters OwnRow OwnStatement OwnOperands OwnNames
 CHECK_DEADLOCK FALSE
